@@ -95,6 +95,13 @@ def rel_paths(rng, count, depth=3):
             comps = p.split("/")
             for i in range(1, len(comps)):
                 dirs.add("/".join(comps[:i]))
+    if rng.random() < 0.05:
+        deep = "/".join(["n"] * rng.choice([15, 16, 17, 20])) + "/" + rng.choice(NAMES[:8])   # very deep nesting
+        files.add(deep)
+        out.append(deep)
+        comps = deep.split("/")
+        for i in range(1, len(comps)):
+            dirs.add("/".join(comps[:i]))
     while len(out) < count and tries < 200:
         tries += 1
         d = rng.randrange(0, depth)
@@ -131,12 +138,14 @@ def tree(rng, B, pl, max_files=6, allow_empty=True, big=True):
     if all(len(b) == 0 for _, b in files):
         files[0] = (files[0][0], Blob.rand(3, B + 1))
         classes[0] = "B+1"
-    if rng.random() < 0.15 and len(files) >= 2:      # identical files (equal roots)
+    if rng.random() < 0.22 and len(files) >= 2:      # identical files (equal roots)
         files[1] = (files[1][0], files[0][1])
-        if rng.random() < 0.5:
+        if rng.random() < 0.6:
             import copy
             twin = copy.copy(files[0][1])
             twin.hardlink_of = files[0][0]           # ... as a second name of the same inode
+            if rng.random() < 0.55:
+                twin.hardlink_of = "@" + files[0][0]  # ... or as a symbolic link to the first file
             files[1] = (files[1][0], twin)
     files = FileList(files)
     if rng.random() < 0.15:
